@@ -220,7 +220,9 @@ Definition distinct_count (m : hm) : N := nlen (names_of m []).
      header_map.extend(sanitized metadata)   one entry per distinct name
      insert(grpc-status)
      insert(grpc-message) unless the message is empty (Err - not a panic - on an illegal value)
-     insert(grpc-status-details-bin) unless the details are empty *)
+     insert(grpc-status-details-bin) unless the details are empty; with empty details
+     remove(grpc-status-details-bin) instead (fix ed827503, F-C04e) - a removal reserves nothing and
+     cannot panic *)
 Definition header_steps_panic (d : N) (st : status) : bool :=
   if HM_MAX_ENTRIES <? d then true
   else
